@@ -65,6 +65,11 @@ func (rv *respValue) serializeBlobErrorString(sb *strings.Builder, data respBlob
 }
 
 func (rv *respValue) serializeSimpleString(sb *strings.Builder, data string) {
+	// a simple or error string ends at the first CR LF: text quoted from client
+	// input must not be able to end the line early
+	if strings.ContainsAny(data, "\r\n") {
+		data = strings.NewReplacer("\r", " ", "\n", " ").Replace(data)
+	}
 	sb.WriteString(fmt.Sprintf("%s\r\n", data))
 }
 
